@@ -1,173 +1,1 @@
-/-
-  C06 (apply_patch level) — an already applied patch is detected, not applied a second time.
-  History: `file` was patched with the valid script `hs`, giving `B = splice file 0 hs`; the same patch is run on `B`.
--/
-import PatchModel.Spec.Script
-import PatchModel.Lemmas.Valid
-import Wip.C02
-import Wip.C01
-import Wip.C05
-namespace PatchModel.C06
-open PatchModel PatchModel.Script
-
-/-- the reversed-D2 exclusion (see C05) -/
-def NoReversedD2 (file : List Line) (hs : List Hunk) : Prop :=
-  ∀ h ∈ hs, ¬ (h.new.count = 0 ∧ h.new.start = 0 ∧ splice file 0 hs ≠ [])
-
-/-- the inherently ambiguous case is excluded: the first hunk does not apply exactly at its stated line of `B`
-    (in particular it is not a context-free insertion, which "fits" anywhere) -/
-def FirstHunkNoLongerFits (B : List Line) (h1 : Hunk) (o : ApplyOpts) : Prop :=
-  h1.old.count ≠ 0 ∧ admissibleB B h1 o.ignoreWhitespace o.maxFuzz h1.pos0.toNat 0 = false
-
-/-! ### helpers -/
-
-theorem forward_not_perfect (B : List Line) (h1 : Hunk) (o : ApplyOpts)
-    (hamb : FirstHunkNoLongerFits B h1 o) (hf : o.force = false) :
-    shouldCheckReversed (locateHunk B h1 o.ignoreWhitespace 0 o.maxFuzz 0) o = true := by
-  unfold shouldCheckReversed
-  cases hl : locateHunk B h1 o.ignoreWhitespace 0 o.maxFuzz 0 with
-  | none => simp [hf]
-  | some l =>
-    simp only []
-    split
-    · next hc =>
-      exfalso
-      obtain ⟨p, f, e1, e2, _, hadm, e3⟩ :=
-        C02.locate_sound B h1 o.ignoreWhitespace 0 o.maxFuzz 0 l hl hamb.1
-      have hf0 : f = 0 := by omega
-      have hp : h1.pos0.toNat = p := by unfold Hunk.pos0; omega
-      rw [hf0, ← hp, hamb.2] at hadm
-      cases hadm
-    · simp [hf]
-
-theorem reversed_perfect (file : List Line) (h1 : Hunk) (rest : List Hunk) (o : ApplyOpts)
-    (hv : Valid file 0 0 (h1 :: rest)) (hx : NoReversedD2 file (h1 :: rest)) (hF : 0 ≤ o.maxFuzz) :
-    Valid (splice file 0 (h1 :: rest)) 0 0 (reverseHunk h1 :: rest.map reverseHunk) ∧
-    splice (splice file 0 (h1 :: rest)) 0 (reverseHunk h1 :: rest.map reverseHunk) = file ∧
-    ∃ q : Nat, locateHunk (splice file 0 (h1 :: rest)) (reverseHunk h1) o.ignoreWhitespace 0 o.maxFuzz 0
-      = some ⟨q, 0, 0⟩ := by
-  obtain ⟨hv', hs'⟩ := C05.reverse_valid file (h1 :: rest) hv hx
-  simp only [List.map_cons] at hv' hs'
-  refine ⟨hv', hs', ?_⟩
-  cases hv' with
-  | cons _ _ _ _ q hw hq hcq hold hfit hnew hex hv'' =>
-    exact ⟨q, C01.locate_inplace _ _ _ _ 0 q hw hq hcq hold hfit hex hF⟩
-
-theorem shouldCheck_force (loc : Option Location) (o : ApplyOpts) (hf : o.force = true) :
-    shouldCheckReversed loc o = false := by
-  unfold shouldCheckReversed
-  cases loc with
-  | none => simp [hf]
-  | some l => simp only []; split <;> simp [hf]
-
-/-- with -f `apply_patch` is the plain hunk loop -/
-theorem applyPatch_force (file : List Line) (p0 : Patch) (o : ApplyOpts) (tty : Option (List Bool))
-    (hf : o.force = true) :
-    applyPatch file p0 o tty =
-      match applyRest file o (if o.reverse then reversePatch p0 else p0) ({ tty := tty } : AState) 0
-          (if o.reverse then reversePatch p0 else p0).hunks with
-      | .error e => .error e
-      | .ok s3 => .ok (C01.finishRes file (if o.reverse then reversePatch p0 else p0) s3) := by
-  unfold applyPatch
-  simp only []
-  generalize (if o.reverse = true then reversePatch p0 else p0) = p
-  cases hh : p.hunks with
-  | nil => rfl
-  | cons h0 rest =>
-    simp only [shouldCheck_force _ o hf, Bool.false_eq_true, if_false]
-    exact C01.first_then_rest file o p ({ tty := tty } : AState) h0 rest (C01.finishRes file p)
-
-/-- with -N: the file stays as it is, every hunk is saved as a reject (reported "ignored"), nothing is applied -/
-theorem C06_N (file : List Line) (h1 : Hunk) (rest : List Hunk) (p0 : Patch) (o : ApplyOpts) (tty : Option (List Bool))
-    (hv : Valid file 0 0 (h1 :: rest)) (hx : NoReversedD2 file (h1 :: rest)) (hp : p0.hunks = h1 :: rest)
-    (hamb : FirstHunkNoLongerFits (splice file 0 (h1 :: rest)) h1 o)
-    (hN : o.ignoreReversed = true) (hf : o.force = false) (hR : o.reverse = false)
-    (hD : o.define = []) (hF : 0 ≤ o.maxFuzz) :
-    ∃ r, applyPatch (splice file 0 (h1 :: rest)) p0 o tty = .ok r ∧
-      r.out.map Out.line = splice file 0 (h1 :: rest) ∧
-      r.skipped = true ∧ r.applied = [] ∧ r.failed = (h1 :: rest).length ∧
-      r.rejected.map (·.1) = List.range (h1 :: rest).length ∧
-      Msg.reversedDetected false ∈ r.msgs ∧ Msg.skippingPatch ∈ r.msgs ∧ r.tty = tty := by
-  obtain ⟨_, _, q, hq⟩ := reversed_perfect file h1 rest o hv hx hF
-  have hsc := forward_not_perfect _ h1 o hamb hf
-  have hwf := valid_allWF hv
-  generalize splice file 0 (h1 :: rest) = B at *
-  unfold applyPatch
-  simp only [hR, Bool.false_eq_true, if_false, hp, hsc, if_true, hq, isPerfect, beq_self_eq_true, Bool.and_self,
-    Bool.true_or, checkHowToHandleReversed, hN, Bool.not_true]
-  obtain ⟨s3, e, a1, a2, a3, a4, a5, a6, a7⟩ := applyRest_skip B o p0 (h1 :: rest)
-    ({ skip := true, msgs := [Msg.reversedDetected false, Msg.skippingPatch], tty := tty } : AState) 0 rfl hwf
-  have hfold := C01.first_then_rest B o p0
-    ({ skip := true, msgs := [Msg.reversedDetected false, Msg.skippingPatch], tty := tty } : AState) h1 rest
-    (C01.finishRes B p0)
-  refine ⟨C01.finishRes B p0 s3, ?_, ?_, a3, a4, ?_, ?_, ?_, ?_, a7⟩
-  · refine Eq.trans hfold ?_
-    rw [e]
-  · simp [C01.finishRes, a1, a2, copyRange_map_line]
-  · have := congrArg List.length a5
-    simpa [C01.finishRes] using this
-  · simpa [C01.finishRes, List.range_eq_range'] using a5
-  · exact a6.subset (by simp)
-  · exact a6.subset (by simp)
-
-/-- with -t (and no -N): the patch is applied in reverse and restores the original lines -/
-theorem C06_t (file : List Line) (h1 : Hunk) (rest : List Hunk) (p0 : Patch) (o : ApplyOpts) (tty : Option (List Bool))
-    (hv : Valid file 0 0 (h1 :: rest)) (hx : NoReversedD2 file (h1 :: rest)) (hp : p0.hunks = h1 :: rest)
-    (hamb : FirstHunkNoLongerFits (splice file 0 (h1 :: rest)) h1 o)
-    (hN : o.ignoreReversed = false) (ht : o.batch = true) (hf : o.force = false) (hR : o.reverse = false)
-    (hD : o.define = []) (hF : 0 ≤ o.maxFuzz) :
-    ∃ r, applyPatch (splice file 0 (h1 :: rest)) p0 o tty = .ok r ∧
-      r.out.map Out.line = file ∧ r.rejected = [] ∧ r.skipped = false ∧
-      Msg.reversedDetected false ∈ r.msgs ∧ Msg.assumingR ∈ r.msgs ∧ r.tty = tty := by
-  obtain ⟨hv', hs', q, hq⟩ := reversed_perfect file h1 rest o hv hx hF
-  have hsc := forward_not_perfect _ h1 o hamb hf
-  generalize splice file 0 (h1 :: rest) = B at *
-  unfold applyPatch
-  simp only [hR, Bool.false_eq_true, if_false, hp, hsc, if_true, hq, isPerfect, beq_self_eq_true, Bool.and_self,
-    Bool.true_or, checkHowToHandleReversed, hN, ht, Bool.not_false]
-  obtain ⟨s3, e, b1, b2, _, _, b5, _, _, b8, b9⟩ :=
-    C01.applyRest_valid B o { p0 with hunks := reverseHunk h1 :: rest.map reverseHunk } hD hF 0 0 _ hv'
-      ({ msgs := [Msg.reversedDetected false, Msg.assumingR], tty := tty } : AState) 0 rfl rfl rfl
-  have hfold := C01.first_then_rest B o { p0 with hunks := reverseHunk h1 :: rest.map reverseHunk }
-    ({ msgs := [Msg.reversedDetected false, Msg.assumingR], tty := tty } : AState) (reverseHunk h1)
-    (rest.map reverseHunk) (C01.finishRes B { p0 with hunks := reverseHunk h1 :: rest.map reverseHunk })
-  simp only [hq] at hfold
-  refine ⟨C01.finishRes B { p0 with hunks := reverseHunk h1 :: rest.map reverseHunk } s3, ?_, ?_, b2, b5, ?_, ?_, b9⟩
-  · refine Eq.trans hfold ?_
-    rw [e]
-  · have : (C01.finishRes B { p0 with hunks := reverseHunk h1 :: rest.map reverseHunk } s3).out =
-        s3.out ++ copyRange B s3.cursor (B.length - s3.cursor) := rfl
-    rw [this, b1, hs']; rfl
-  · exact b8.subset (by simp)
-  · exact b8.subset (by simp)
-
-/-- with -f no guess is made: the result does not depend on the tty, nothing is asked, no "reversed" message -/
-theorem C06_f (file : List Line) (p0 : Patch) (o : ApplyOpts) (tty : Option (List Bool))
-    (hf : o.force = true) :
-    (∀ r, applyPatch file p0 o tty = .ok r →
-      r.tty = tty ∧ r.skipped = false ∧
-      (∀ m ∈ r.msgs, ∀ u q, m ≠ Msg.reversedDetected u ∧ m ≠ Msg.assumingR ∧ m ≠ Msg.skippingPatch ∧ m ≠ Msg.asked q)) ∧
-    (∀ tty', (applyPatch file p0 o tty').toOption.map (·.out) = (applyPatch file p0 o tty).toOption.map (·.out)) := by
-  constructor
-  · intro r hr
-    rw [applyPatch_force file p0 o tty hf] at hr
-    split at hr
-    · cases hr
-    · next s3 hs3 =>
-      injection hr with hr
-      subst hr
-      obtain ⟨a1, a2, a3⟩ := applyRest_frame _ _ _ _ _ _ _ hs3
-      refine ⟨a1, a2, ?_⟩
-      intro m hm u q
-      rcases a3 m hm with h | h
-      · cases h
-      · cases m <;> simp [isHunkMsg] at h ⊢
-  · intro tty'
-    rw [applyPatch_force file p0 o tty hf, applyPatch_force file p0 o tty' hf]
-    have e : ({ tty := tty' } : AState) = setTty ({ tty := tty } : AState) tty' := rfl
-    rw [e, applyRest_setTty]
-    cases applyRest file o _ ({ tty := tty } : AState) 0 _ with
-    | error e => rfl
-    | ok s => rfl
-
-end PatchModel.C06
+import PatchModel.Props.C06
